@@ -12,9 +12,9 @@ def finding_key(req, obs, detail):
     m = re.match(r"FAIL:panic ([^:]+):\d+: (.*)$", detail or "")
     if m:
         return "panic %s: %s" % (m.group(1), re.sub(r"\d+", "N", m.group(2)))
-    # one call site, one finding: Constant::to_uint64 lets negative literals through as array lengths
-    if re.match(r"FAIL:array recorded len:\d+ for an expression whose value is L-\d+ ", detail or ""):
-        return "array length: negative literal accepted (Constant::to_uint64, ir/src/ir_types.rs)"
+    # one call site, one finding: Constant::to_uint64 lets negative literals through as sizes
+    if re.match(r"FAIL:(array|numthreads) recorded (len|threads):\d+ for an expression whose value is L-\d+ ", detail or ""):
+        return "size from a negative literal accepted (Constant::to_uint64, ir/src/ir_types.rs)"
     return req.split("\tsrc:")[0]
 
 
